@@ -108,14 +108,19 @@ def run(prog, ctx):
                             ok = True
                         else:
                             loose = fct
+            any_cmp = any(fct[0] in ("Gt", "Lt", "Ge", "Le", "true", "false") for fct in facts)
             if ok:
                 res.discharged += 1
                 res.sample({"rule": "C02.G", "fn": f.id, "store": kind, "guard": "new > old"})
-            else:
+            elif loose or not any_cmp:
+                # positive evidence: a non-strict guard between the new value and the register, or no ordering guard at all
                 res.violate("C02.G", "C02.G|%s|%s" % (f.id, kind),
                             "register store (%s) in %s is not dominated by a strict `new > old` comparison%s" % (
-                                kind, f.id, " (found non-strict %s)" % (show(loose[1]) + " >= " + show(loose[2])) if loose else ""),
+                                kind, f.id, " (found non-strict %s)" % (show(loose[1]) + " >= " + show(loose[2])) if loose else " (no ordering guard dominates it)"),
                             f.id, site.get("span"))
+            else:
+                res.undecided += 1
+                res.extra.setdefault("undecided_items", []).append("C02.G %s %s: guards not recognised: %s" % (f.id, kind, [(x[0], show(x[1])[:30]) for x in facts][:4]))
             # C02.V the value stored is the value the estimator was told about: the aux map and the 6/8-bit registers hold the
             # absolute new value (the 4-bit nibble holds new - cur_min, rule A4)
             val_arg = None
@@ -163,6 +168,8 @@ def run(prog, ctx):
                 res.obligations += 1
                 if is_value_of_coupon(new_e) and not is_value_of_coupon(old_e):
                     res.discharged += 1
+                elif not (is_value_of_coupon(old_e) and not is_value_of_coupon(new_e)):
+                    res.undecided += 1      # neither argument is recognisably the coupon's value
                 else:
                     res.violate("C02.P", "C02.P|%s|roles" % f.id,
                                 "HipEstimator::update in %s is not called as (lg_k, old, new): old=%s new=%s" % (f.id, show(old_e), show(new_e)),
@@ -177,6 +184,8 @@ def run(prog, ctx):
                        (depends_on_registers(x[1]) or depends_on_registers(x[2]) or sym.contains(x[1], lambda t: t[0] == "var") or sym.contains(x[2], lambda t: t[0] == "var"))
                        for x in facts):
                     res.discharged += 1
+                elif any(x[0] in ("Eq", "true", "false") for x in facts):
+                    res.undecided += 1
                 else:
                     res.violate("C02.P", "C02.P|%s|%s-decrement" % (f.id, fld),
                                 "decrement of %s in %s is not guarded by `old == <min value>`" % (fld, f.id), f.id, span)
@@ -234,7 +243,18 @@ def run(prog, ctx):
             n_r += 1
             res.obligations += 1
             if not upd_blocks:
-                res.violate("C02.R", "C02.R|%s|no-update" % f.id, "loop over the old container in %s does not re-insert its items" % f.id, f.id)
+                # the re-insertion may sit in a helper: any call in the body that receives the iterator item counts as "handled
+                # elsewhere" (undecided); a body in which no call at all receives the item drops the coupons (violation)
+                takes_item = False
+                for b in body:
+                    t = f.blocks[b].term
+                    if t[0] == "call" and not (t[1].get("callee") or "").endswith("::next"):
+                        if any(sym.contains(s.at(b, "t").operand(a), lambda x: x[0] == "call" and x[1].endswith("::next")) for a in t[1]["args"]):
+                            takes_item = True
+                if takes_item:
+                    res.undecided += 1
+                else:
+                    res.violate("C02.R", "C02.R|%s|no-update" % f.id, "loop over the old container in %s does not re-insert its items" % f.id, f.id)
                 continue
             # every path from the `Some` edge back to the header passes an update call whose item is the iterator item
             nb = nexts[0]
@@ -274,8 +294,16 @@ def run(prog, ctx):
             if ok and item_ok:
                 res.discharged += 1
                 res.sample({"rule": "C02.R", "fn": f.id, "loop_header": hdr, "verdict": "every iteration re-inserts the iterator item"})
+            elif not ok and item_ok:
+                # an iteration can return to the loop head without the update: fine only if that branch tests the empty sentinel
+                conds = [s.at(b, "t").operand(f.blocks[b].term[1]) for b in body if f.blocks[b].term[0] == "switch" and b not in [x for x in body if f.blocks[x].term[0] == "switch" and sym.contains(s.at(x, "t").operand(f.blocks[x].term[1]), lambda t: t[0] == "discr")]]
+                sentinel_only = conds and all(c[0] == "bin" and c[1] in ("Eq", "Ne") and (C.const_of(c[2]) == 0 or C.const_of(c[3]) == 0) for c in conds)
+                if sentinel_only:
+                    res.undecided += 1
+                else:
+                    res.violate("C02.R", "C02.R|%s" % f.id, "replay loop in %s can skip a coupon (branches inside the loop: %s)" % (f.id, [show(c)[:50] for c in conds][:3]), f.id)
             else:
-                res.violate("C02.R", "C02.R|%s" % f.id, "replay loop in %s can skip a coupon or does not pass the iterator item to update" % f.id, f.id)
+                res.undecided += 1
     res.rule("C02.R", n_r, 5, "replay loops in promotion/growth routines")
 
     # Container::iter filters only the empty sentinel
@@ -291,6 +319,8 @@ def run(prog, ctx):
                 good = True
         if good:
             res.discharged += 1
+        elif not clos:
+            res.undecided += 1
         else:
             res.violate("C02.R", "C02.R|Container::iter|filter", "Container::iter filters something other than the empty sentinel", it.id)
 
@@ -312,9 +342,12 @@ def run(prog, ctx):
                     res.obligations += 1
                     cexp = v[3]
                     want = cur_min_store if cur_min_store is not None else ("field", ("param", 1, "self"), "cur_min")
+                    cexp = C.resolve_var(prog, f, cexp, s)
                     if cexp == want:
                         res.discharged += 1
                         res.sample({"rule": "C02.A4", "fn": f.id, "nibble": show(v), "cur_min_at_exit": show(want)})
+                    elif sym.contains(cexp, lambda t: t[0] == "var") or not sym.contains(cexp, lambda t: t[0] == "field" and t[2] == "cur_min"):
+                        res.undecided += 1      # the subtrahend is not recognisably a cur_min value
                     else:
                         res.violate("C02.A4", "C02.A4|%s" % f.id,
                                     "nibble %s written in %s is not relative to the cur_min in force when the function returns (%s)" % (
@@ -336,6 +369,8 @@ def run(prog, ctx):
             if a == b:
                 res.discharged += 1
                 res.sample({"rule": "C02.Q", "fn": f.id, "stride": show(pl["stride"]), "mask": show(pl["mask"])})
+            elif sym.contains(a, lambda t: t[0] == "var") or sym.contains(b, lambda t: t[0] == "var"):
+                res.undecided += 1      # a size held in a reassigned local: not resolved
             else:
                 res.violate("C02.Q", "C02.Q|%s" % f.id, "probe loop in %s: stride %s is derived from a different table size than the mask %s" % (
                     f.id, show(pl["stride"]), show(pl["mask"])), f.id, pl["span"])
@@ -360,7 +395,8 @@ def run(prog, ctx):
                 if len(arms) >= 5 or (len(arms) >= 4 and b.term[3] not in tgts and f.blocks[b.term[3]].term[0] != "unreachable"):
                     res.discharged += 1
                 else:
-                    res.violate("C02.D", "C02.D|%s" % f.id, "%s does not handle all five Mode variants" % f.id, f.id)
+                    # a wildcard / `if let` form: exhaustiveness is rustc's job; which variants share the fallback is not decided here
+                    res.undecided += 1
     res.rule("C02.D", n_d, 7, "Mode dispatches in HllSketch methods")
 
     res.explanation = ("structural rules over the MIR of the %d functions reachable from HllSketch::update: guarded strict max-write, slot "
